@@ -169,7 +169,9 @@ CHECKS = {
   category="proof",
   text=("Kernel-decided theorems over the regenerated magnetic tables for all 1651 entries and 230 ranges (Props/C17.lean): every magnetic Hall string parses and is closed; the construct type recomputed from the generated "
         "group equals the table; the family group / unprimed subgroup is the Standard setting of the entry's number under a kernel-checked proper affine map; UNI numbering, BNS prefix, exactly 230 contiguous ranges with the "
-        "right number; entries of a range are pairwise different (partial form). Parser model tied to the Rust parser by exhaustive correspondence on all 1651 strings; uni_number_range compared with the running code."),
+        "right number; entries of a range are pairwise different (partial form). Parser model tied to the Rust parser by exhaustive correspondence on all 1651 strings; uni_number_range compared with the running code. "
+        "'Identified as itself': the tabulated primitive operations of every UNI number, own setting and re-based settings, go through the real MagneticSpaceGroup::new and must come back with their own UNI number "
+        "(2201 rows per quick run, all x 3 in thorough; the Lean model of that function is the s5m stage of C12)."),
   design_ref="DESIGN.md §3 C17",
   note=("Trusted as C16. Partial: 'identified as itself and no other' is proved only as pairwise difference of the tabulated primitive operation sets inside a range, not as inequivalence under the origin shifts / normalizer "
         "elements the identification tries (mag_range_distinct_partial); the pipeline-level statement is C12."),
